@@ -110,6 +110,9 @@ def parsePollIn (s : String) : Option PollIn :=
   | _ => none
 
 structure Input where
+  /-- the conversation ran over real gRPC: the service may answer pipelined requests the client no
+      longer reads after an aborting response -/
+  wire : Bool
   cfg : Cfg
   own : List DFile
   alien : List DFile
@@ -118,6 +121,7 @@ structure Input where
 def parseInput (fields : List String) : Except String Input := do
   let mut lim : Int := 0
   let mut only := false
+  let mut wire := false
   let mut ign : List Bytes := []
   let mut own : List DFile := []
   let mut alien : List DFile := []
@@ -130,7 +134,7 @@ def parseInput (fields : List String) : Except String Input := do
       | some n => lim := n
       | none => throw "lim"
     else if k == "only" then only := v == "1"
-    else if k == "wire" then pure ()      -- transport used by the harness (fake pool / real gRPC over bufconn)
+    else if k == "wire" then wire := v == "1"   -- transport used by the harness (fake pool / real gRPC over bufconn)
     else if k == "ign" then ign := (splitL "," v).map tok
     else if k == "F" then
       match parseFile v with
@@ -145,7 +149,7 @@ def parseInput (fields : List String) : Except String Input := do
       | some x => polls := polls ++ [x]
       | none => throw "poll"
     else throw s!"field {k}"
-  return { cfg := mkCfg lim only ign, own := own, alien := alien, polls := polls }
+  return { wire := wire, cfg := mkCfg lim only ign, own := own, alien := alien, polls := polls }
 
 /-! ### observed conversation -/
 
@@ -267,12 +271,19 @@ def endpointOf (p : PollOut) (v : Version) : Endpoint :=
   | some s => { connErr := s.connErr, pol := oraclePol s.events, sched := oracleSched s.events }
   | none => { connErr := some 999, pol := fun _ _ => mismatch, sched := fun _ l => l }
 
-def logMatches (log : PollLog) (p : PollOut) : Bool :=
+/-- the model's conversation ended with an aborting response -/
+def abortedAt (h : History) : Bool :=
+  match h.reverse.head? with
+  | some (_, .error _) => true
+  | some (_, .other _) => true
+  | _ => false
+
+def logMatches (wire : Bool) (log : PollLog) (p : PollOut) : Bool :=
   log.length == p.streams.length &&
   (log.zip p.streams).all fun (l, s) =>
     l.1 == s.v && (match l.2, s.connErr with
       | none, some _ => true
-      | some h, none => h == s.events
+      | some h, none => h == s.events || (wire && abortedAt h && h.isPrefixOf s.events)
       | _, _ => false)
 
 /-! ### the specification judged on the observed conversation -/
@@ -378,7 +389,7 @@ def judgePoll (inp : Input) (pin : PollIn) (p : PollOut) (js : JState) : JState 
   | none, some r => (js', s!"VIOL {r}", branch)
   | none, none =>
     if modelOut ≠ p.result then (js', s!"DIFF model={modelOut}", branch)
-    else if !logMatches log p then (js', "DIFF model issues different requests", branch)
+    else if !logMatches inp.wire log p then (js', "DIFF model issues different requests", branch)
     else (js', "", branch)
 
 def handle : Handler := fun inF outF =>
